@@ -301,6 +301,9 @@ func (g *Gen) Str() string {
 
 func (g *Gen) listLen() int {
 	if g.K.LongLists && g.R.P(0.3) {
+		if g.R.P(0.4) {
+			return g.R.Range(49, 51) // two of these total 98..102: both sides of the 100-element switch
+		}
 		return g.R.Range(48, 120)
 	}
 	if g.R.P(0.08) {
